@@ -20,15 +20,16 @@ m = {
         "add_only": True,
     },
     "engines": [
-        {"name": "kani-shadow", "path": "/verif/lib/bcv", "serves_properties": sorted(plan.PLAN.keys()),
+        {"name": "kani-shadow", "path": "/verif/lib/bcv", "serves_properties": sorted(p for p in plan.PLAN.keys() if p in set(plan.CLAIMED)),
          "kind_free_text": "bounded symbolic execution of the compiled MIR of the real functions (Kani 0.68 / CBMC 6.11 / CaDiCaL SAT); inputs, lengths, states symbolic; counterexamples replayed natively against a copy of the real crate"},
     ],
     "checks": [],
     "not_applicable": [],
     "notes": "exit 2 = inconclusive (timeout, memory, engine error, non-reproducing counterexample); never reported as a pass. Source commits listed under hooks are 'fix:' repairs of genuine defects, not hooks: no instrumentation is added to /repo.",
 }
+CLAIMED = set(plan.CLAIMED)
 for pid in ALL:
-    if pid in plan.PLAN and pid in TEXT:
+    if pid in plan.PLAN and pid in TEXT and pid in CLAIMED:
         t = TEXT[pid]
         m["checks"].append({
             "property_id": pid,
